@@ -38,7 +38,7 @@ for M in (1, 2, 3, 4, 6, 8, 12, 33, 62, 63, 64, 65, 66):
     tiers = ('quick', 'thorough') if quick else ('thorough',)
     fn = ['parse_number', 'get_decimal_point']
     if M <= 12:
-        QP('num.M%d' % M, 'harness/parse_num.c', defs=['-DM=%d' % M], unwind=M + 2, tiers=tiers, cost=M, functions=fn)
+        QP('num.M%d' % M, 'harness/parse_num.c', props=PARSE_PROPS + (('C07',) if M == 3 else ()), defs=['-DM=%d' % M], unwind=M + 2, tiers=tiers, cost=M, functions=fn)
     else:
         # long buffers: offset 0; safety/rejection/offset obligations on arbitrary bytes, C02 on constructed long integer literals
         QP('num.M%d' % M, 'harness/parse_num.c', props=('C01', 'C03', 'C10'), defs=['-DM=%d' % M, '-DOFF0'], unwind=min(M, 64) + 2, tiers=tiers, cost=M, functions=fn)
@@ -114,7 +114,7 @@ EDIT_OPS = {1: 'AddItemToArray', 2: 'AddItemToObject', 3: 'AddItemToObjectCS', 4
 for op, name in EDIT_OPS.items():
     for K in (2, 3, 4):
         QM(('C06', 'C07', 'C08') + (('C20',) if K == 2 else ()), 'edit.%s.K%d' % (name, K), 'harness/edit.c', defs=['-DOP=%d' % op, '-DK=%d' % K], unwind=K + 3,
-           unwindset=ML(K + 4, 60) + ['cJSON_Delete:2', 'cJSON_Delete.0:3', 'vf_build_rec:3', 'vf_memcpy.0:66', 'strlen.0:6', 'strcmp.0:6', 'strcpy.0:6', 'memcmp.0:4', 'check_list.0:%d' % (K + 3)],
+           unwindset=ML(K + 4, 60) + ['cJSON_Delete:2', 'cJSON_Delete.0:3', 'vf_build_rec:3', 'vf_memcpy.0:66', 'vf_strcpy.0:8', 'strlen.0:6', 'strcmp.0:6', 'strcpy.0:6', 'memcmp.0:4', 'check_list.0:%d' % (K + 3)],
            tiers=('quick', 'thorough') if K in (2, 3) else ('thorough',), cost=K * 5, functions=['cJSON_' + name if op < 18 else name, 'add_item_to_array', 'add_item_to_object', 'create_reference', 'get_array_item', 'get_object_item', 'cJSON_Delete', 'cJSON_strdup'])
 CRFN = ['cJSON_CreateNull', 'cJSON_CreateTrue', 'cJSON_CreateFalse', 'cJSON_CreateBool', 'cJSON_CreateNumber', 'cJSON_CreateString', 'cJSON_CreateRaw', 'cJSON_CreateArray', 'cJSON_CreateObject',
         'cJSON_CreateStringReference', 'cJSON_CreateObjectReference', 'cJSON_CreateArrayReference', 'cJSON_New_Item', 'cJSON_strdup', 'cJSON_Delete']
